@@ -51,6 +51,10 @@ pub const CONSTRUCTS: &[(&str, &str, &str)] = &[
     ("if-return-semi", "51", "if a then return; end\n"),
     ("stmts-semi", "51", "local a = 1; f(); return a;\n"),
     ("call-3", "51", "register(handler, fallback, function() return 1 end)\n"),
+    ("method-chain-class", "51", "local r = Promise:resolve(42):andThen(print)\n"),
+    ("dot-chain-short", "51", "app.use(logger).listen(8080)\n"),
+    ("method-chain-3", "51", "x:a():b(1):c()\n"),
+    ("method-chain-long", "51", "local result = SomeLongClassNameForChains.new(argument):withOption(option):build()\n"),
     ("require-block", "51", "local b = require(\"b\")\nlocal a = require(\"a\")\n"),
     ("table-trailing-sep", "51", "local t = { 1, 2, }\n"),
     ("table-trailing-semi-named", "51", "local t = { a = 1; b = 2; }\n"),
